@@ -93,4 +93,61 @@ example : ∃ z z', cellCentre wMesh.points [0, 1, 2] = some z ∧ cellCentre wM
     hz hz' (by decide +kernel) (by decide +kernel) (by decide +kernel) (by decide +kernel) (by decide +kernel)
     (by decide +kernel) (by simp)
 
+/-! ### noisy relabelling -/
+
+/-- the unit square of `sqA` and a copy whose points 0 and 3 (the left edge) are moved by one unit
+    (2^-1074) in `x` -/
+def nzA : Mesh := sqA.mesh
+def nzB : Mesh :=
+  { dim := 2, points := [[1, 0], [one, 0], [one, one], [1, one]], cells := [("TRIANGLE", [[0, 1, 2], [0, 2, 3]])] }
+
+/-- NEGATION WITNESS for `hrel` of `C02_canonical_points_partial` on a genuinely noisy pair: a cluster key
+    is the smallest value occurring in the OWN mesh, so the key-vector pairs of the two sides are different
+    lists (`[0, …]` vs `[1, …]`) although the meshes are a noisy relabelled pair far inside `Sep` -/
+example : ¬ ((pitems nzA).map (kv2 (KC (sepA (meshTolOf nzA)) nzA)
+      (KM (sepA (meshTolOf nzA)) [] argsortIns (meshTolOf nzA) nzA) nzA.dim)).Perm
+    ((pitems nzB).map (kv2 (KC (sepA (meshTolOf nzB)) nzB)
+      (KM (sepA (meshTolOf nzB)) [] argsortIns (meshTolOf nzB) nzB) nzB.dim)) := by
+  decide +kernel
+
+theorem nz_noisy : NoisyRelabeled nzA nzB [0, 1, 2, 3] 1 where
+  dim := rfl
+  perm := by decide
+  len := rfl
+  rowLen1 := by decide
+  rowLen2 := by decide
+  near := by decide +kernel
+  wf := by decide +kernel
+  rows := by decide +kernel
+
+/-- … while the JOINT cluster keys agree (`C02_noisy_point_keys`), here for point 0, column 0 -/
+example : clusterKey (sepA (meshTolOf nzA)) ((pitems nzA ++ pitems nzB).map (pkey 0)) ((nzB.points.getD 0 []).getD 0 0) =
+    clusterKey (sepA (meshTolOf nzA)) ((pitems nzA ++ pitems nzB).map (pkey 0))
+      ((nzA.points.getD (([0, 1, 2, 3] : List Nat).getD 0 0) []).getD 0 0) :=
+  C02_noisy_point_keys nz_noisy (sepA_sepB _) (by decide +kernel) (by decide) (by decide +kernel) (by decide)
+
+/-- `C02_noisy_centre_keys` on the first triangle: the centres of the cell in the two meshes have the
+    same joint cluster key in column 0 -/
+example : ∃ z z', cellCentre nzA.points [0, 1, 2] = some z ∧ cellCentre nzB.points [0, 1, 2] = some z' ∧
+    clusterKey (sepA (meshTolOf nzA)) ([z, z'].map (rowKey 0)) (rowKey 0 z) =
+      clusterKey (sepA (meshTolOf nzA)) ([z, z'].map (rowKey 0)) (rowKey 0 z') := by
+  have h1 : (cellCentre nzA.points [0, 1, 2]).isSome = true := by decide +kernel
+  have h2 : (cellCentre nzB.points [0, 1, 2]).isSome = true := by decide +kernel
+  obtain ⟨z, hz⟩ := Option.isSome_iff_exists.mp h1
+  obtain ⟨z', hz'⟩ := Option.isSome_iff_exists.mp h2
+  refine ⟨z, z', hz, hz', ?_⟩
+  have hsep : sepCol (sepA (meshTolOf nzA)) (sepB (meshTolOf nzA)) ([z, z'].map (rowKey 0)) = true := by
+    have : ∀ a b, cellCentre nzA.points [0, 1, 2] = some a → cellCentre nzB.points [0, 1, 2] = some b →
+        sepCol (sepA (meshTolOf nzA)) (sepB (meshTolOf nzA)) ([a, b].map (rowKey 0)) = true := by
+      have hd : (match cellCentre nzA.points [0, 1, 2], cellCentre nzB.points [0, 1, 2] with
+          | some a, some b => sepCol (sepA (meshTolOf nzA)) (sepB (meshTolOf nzA)) ([a, b].map (rowKey 0))
+          | _, _ => true) = true := by decide +kernel
+      intro a b ha hb
+      rw [ha, hb] at hd
+      exact hd
+    exact this z z' hz hz'
+  exact C02_noisy_centre_keys (M := one.natAbs) (r := [0, 1, 2]) nz_noisy (sepA_sepB _) (by decide +kernel)
+    ⟨by simp, by decide +kernel⟩ (by decide +kernel) (by decide +kernel) hz hz'
+    (List.mem_cons_self ..) (List.mem_cons_of_mem _ (List.mem_cons_self ..)) (by decide) hsep
+
 end Fc.Resid.Witness
